@@ -13,10 +13,12 @@ total = holding + stockout + in-transit − revenue. -/
 theorem period_costs_def (net : Net) (st : State) (n : Nat) (s : NodeSt) :
     let c := net.cfg n
     let r := nodeCosts net st n s
-    r.hc = c.h * (pos s.il + lsum (c.outE.map fun e => (st.edge e).odi))
+    r.hc = (match c.hFn with
+            | some cs => polyEval cs (pos s.il + lsum (c.outE.map fun e => (st.edge e).odi))
+            | none => c.h * (pos s.il + lsum (c.outE.map fun e => (st.edge e).odi)))
         + lsum (c.inE.map fun e => match (net.edge e).src with
             | some p => (net.cfg p).h * ((st.edge e).rm + (st.edge e).idi) | none => 0) ∧
-    r.sc = c.p * neg s.il ∧
+    r.sc = (match c.pFn with | some cs => polyEval cs s.il | none => c.p * neg s.il) ∧
     r.ithc = (match c.hTransit with | none => c.h | some x => x)
         * lsum (c.outE.map fun e => match (net.edge e).dst with | some _ => lsum (st.edge e).ispl | none => 0) ∧
     r.rv = c.rev * lsum (c.outE.map fun e => (st.edge e).os) ∧
@@ -24,6 +26,13 @@ theorem period_costs_def (net : Net) (st : State) (n : Nat) (s : NodeSt) :
     r.il = s.il := by
   intro c r
   exact ⟨rfl, rfl, rfl, rfl, rfl, rfl⟩
+
+/-- A holding-cost function is applied to ALL items held — positive inventory plus the items held for
+disrupted customers — not to the inventory level alone. -/
+theorem holding_function_on_items_held (net : Net) (st : State) (n : Nat) (s : NodeSt) (cs : List Rat)
+    (h : (net.cfg n).hFn = some cs) (hin : (net.cfg n).inE = []) :
+    (nodeCosts net st n s).hc = polyEval cs (pos s.il + lsum ((net.cfg n).outE.map fun e => (st.edge e).odi)) := by
+  simp [nodeCosts, h, hin, lsum]; grind
 
 /-- An explicit in-transit rate of zero is used as zero; only `None` falls back to the holding rate. -/
 theorem in_transit_rate_zero_is_not_none (net : Net) (st : State) (n : Nat) (s : NodeSt)
